@@ -82,10 +82,10 @@ def handle (d : DState) (line : String) : DState × String :=
   match toks line with
   | ["reset"] => (DState.init, "ok")
   | ["yield", w, c] => match which? w, nat? c with
-    | some w, some c => (d, showNatList (yieldOf d.H w c))
+    | some w, some c => (d, showNatList (walk d.H w c))
     | _, _ => (d, "bad-op")
-  | ["yieldold", w, c] => match which? w, nat? c with
-    | some w, some c => (d, showNatList (yieldGetattr d.H w c))
+  | ["yieldspec", w, c] => match which? w, nat? c with
+    | some w, some c => (d, showNatList (yieldOf d.H w c))
     | _, _ => (d, "bad-op")
   | ["own", w, c] => match which? w, nat? c with
     | some w, some c => (d, match d.H.lists w c with | none => "_" | some l => showNatList l)
